@@ -215,7 +215,21 @@ func typeIdentical(x, y types.Type, p *ifacePair) bool {
 		}
 		// The objects may come from different type-check runs (so their addresses differ),
 		// but then they have the same name and are declared in packages with the same path.
-		return x.Obj() == y.Obj() || sameTypeName(x.Obj(), y.Obj())
+		if x.Obj() != y.Obj() && !sameTypeName(x.Obj(), y.Obj()) {
+			return false
+		}
+		// Instantiated types are identical if their type arguments are identical.
+		xargs := x.TypeArgs()
+		yargs := y.TypeArgs()
+		if xargs.Len() != yargs.Len() {
+			return false
+		}
+		for i := 0; i < xargs.Len(); i++ {
+			if !typeIdentical(xargs.At(i), yargs.At(i), p) {
+				return false
+			}
+		}
+		return true
 
 	case *typeparams.TypeParam:
 		// nothing to do (x and y being equal is caught in the very beginning of this function)
